@@ -95,6 +95,16 @@ pub fn run(tier: Tier) -> Report {
     for (i, &(w, h)) in lattice.iter().enumerate() {
         cases.push((w, h, 1 + (i * 11 % 31) as u8, (i % 3) as u8));
     }
+    // dense windows: every height / width up to 700 (thorough 1500) next to a fixed 24, so that every
+    // residue of the luma and chroma plane dimensions modulo anything up to a few hundred occurs
+    let win: u16 = if tier.thorough() { 1500 } else { 700 };
+    for v in (maxd + 1)..=win {
+        cases.push((24, v, 1 + (v % 31) as u8, (v % 3) as u8));
+        cases.push((v, 24, 31 - (v % 31) as u8, ((v + 1) % 3) as u8));
+    }
+    for &(w, h) in &[(1009u16, 331u16), (331, 1009), (2003, 151), (151, 2003), (4099, 67), (67, 4099), (10007, 29), (29, 10007), (611, 433), (720, 577), (1920, 1081)] {
+        cases.push((w, h, 9, 1));
+    }
     cases.push((2049, 17, 5, 1));
     cases.push((17, 2049, 5, 2));
     // more than 2^24 samples (sizes whose product is not representable in single precision)
@@ -200,7 +210,7 @@ pub fn run(tier: Tier) -> Report {
     rep.add_transitions(std_cases.len() as u64);
     rep.add_states(std_cases.len() as u64);
     rep.set_rule(&format!(
-        "every size 1..={maxd} x 1..={maxd}: I pictures at every quantizer 1..31 (fully crossed for sizes <= 20x20, pairwise beyond), plus a P and a D picture per size, plus long/thin extras, every residue mod 16 above 256/512/1024, all pairs of the boundary lattice of dimensions (powers of two and their neighbours, 3*2^k, the named formats, 65535) under the pixel cap, one picture of more than 2^24 samples, and standard-mode custom sizes: plane-size relations, then deblock(plane, row, QUANT_TO_STRENGTH[q]) on the three planes and yuv420_to_rgba on the result under catch_unwind; non-trivial = sizes with an odd dimension or fewer than 10 rows/columns"
+        "every size 1..={maxd} x 1..={maxd}: I pictures at every quantizer 1..31 (fully crossed for sizes <= 20x20, pairwise beyond), plus a P and a D picture per size, plus long/thin extras, every residue mod 16 above 256/512/1024, all pairs of the boundary lattice of dimensions (powers of two and their neighbours, 3*2^k, the named formats, 65535) under the pixel cap, every height / width up to 700 (thorough 1500) next to a fixed 24, prime sizes, one picture of more than 2^24 samples, and standard-mode custom sizes: plane-size relations, then deblock(plane, row, QUANT_TO_STRENGTH[q]) on the three planes and yuv420_to_rgba on the result under catch_unwind; non-trivial = sizes with an odd dimension or fewer than 10 rows/columns"
     ));
     rep.sample(json!({"size": [1, 1], "q": 31, "kind": "I"}));
     rep.sample(json!({"size": [17, 2], "q": 12, "kind": "D", "note": "chroma planes are one row high"}));
